@@ -387,6 +387,8 @@ theorem XInv.step {c : Cfg} {s0 s : St} (ok : CfgOK c s0) (wf : DiskWF s0.disk) 
     XInv s0 (step c s e) := by
   cases e with
   | nodeDone n => exact ⟨x.exact, x.sub, x.al⟩
+  | nodeFailed n => exact x
+  | nodeReset n => exact x
   | removeEmpty => exact x.frame (foldRemove_frame (fun a => (c.namesOf a).isEmpty) s.dom s)
   | cacheMap => exact x.cacheMap ok wf.top
   | early upto =>
